@@ -44,6 +44,11 @@ func infoOf(fn *ssa.Function) *fnInfo {
 	return fi
 }
 
+type armedWait struct {
+	at, d *Term
+	kind  string
+}
+
 type deferred struct {
 	fnv  Value
 	args []Value
@@ -82,6 +87,7 @@ type Interp struct {
 	timerStub    bool
 	timerType    types.Type
 	nows         []*Term
+	armed        []armedWait
 	tickBudget int
 	nowCount   int
 	lastNow    *Term
